@@ -18,11 +18,18 @@ FSETS = [BASE + ('free',), BASE + ('free', 'sizes'), BASE + ('carry',), BASE + (
 ASIS = ('ftrptr-asis', 'directidx-asis')
 
 
+CORPUS_PICK = {'corpus-sizes': ['hoist', 'hoist-alloc', 'pool', 'ftrptr-pad', 'directidx-pad', 'raw'],
+               'corpus-whole': ['directidx-pad', 'ftrptr-pad', 'pool-locrhs', 'raw', 'hoist-kw'],
+               'corpus-passthrough': ['raw', 'pool-nocheck', 'ftrptr', 'directidx', 'ftrptr-asis', 'directidx-asis']}
+
+
 def gen_cases(ctx, n):
-    cases = []
+    cases = S.corpus('C38', ctx.rng)
     for i in range(n):
         g = S.GenSCC(ctx.rng, FSETS[i % len(FSETS)], names='ifs' if i % 3 else 'alt')
         prog = g.program(nblocks=ctx.rng.randint(2, 4))
+        if i % 4 == 3:
+            prog['jwim8'] = True      # the stack transformations' default integer kind JWIM differs from the callers' kind
         cases.append((prog, g.inputs(prog, 3)))
     return cases
 
@@ -35,11 +42,11 @@ def run(ctx):
         cases = [(c['prog'], c['inputs'])]
         pick = {0: [c['variant']] if c.get('variant') else variants}
     else:
-        n, per = (8, 6) if ctx.quick else (90, 8)
+        n, per = (6, 6) if ctx.quick else (70, 8)
         cases = gen_cases(ctx, n)
-        pick = {i: [main[(i * per + j) % len(main)] for j in range(per)] for i in range(n)}
-        pick[0] = pick[0] + [ASIS[0]]
-        pick[1] = pick[1] + [ASIS[1]]
+        pick = {}
+        for i, (prog, _) in enumerate(cases):
+            pick[i] = CORPUS_PICK.get(prog['features'][0]) or [main[(i * per + j) % len(main)] for j in range(per)]
     results, fails, legal = S.behaviour_check_multi(ctx, 'tmp', cases, variants, S.transform_c38, pick=pick)
     S.report_failures_multi(ctx, 'C38', cases, results, fails, S.transform_c38, shrink=not ctx.replay,
                             budget=3 if ctx.quick else 24, shrink_all=not ctx.quick)
